@@ -54,12 +54,13 @@ func RunC08(c *engine.Ctx) {
 	s2kGrid(c)
 	nfoldAndDerivation(c)
 	paDataPrecedence(c)
+	defaultSalts(c)
 	generatedKeys(c)
 	ev := c.Counter("evaluations")
 	c.Add("states", ev)
 	c.Add("transitions", ev)
 	c.Add("traces_validated_against_impl", ev)
-	c.Cov["rule"] = "string-to-key: etype(6) x 14 passwords x 5 salts x iteration counts (quick: 1..64, powers of two, defaults on a sub-grid; thorough: 1..5000) x malformed parameters; n-fold: every input length 1..64 x output sizes {8,16,21,24,32} x all unit-bit vectors, all-ones, seeded; DK/DR/KDF with constants of every length 1..16; DES3 random-to-key: all 256 values at each byte position + pre-images of all 16 weak keys in each third; GetKeyFromPassword: every ordered sequence of every subset of the three PA-data hints; generated keys for each etype. distinct = (sub-space, etype, cell) combinations that agreed with the reference"
+	c.Cov["rule"] = "string-to-key: etype(6) x 14 passwords x 5 salts x iteration counts (quick: 1..64, powers of two, defaults on a sub-grid; thorough: 1..5000) x malformed parameters; n-fold: every input length 1..64 x output sizes {8,16,21,24,32} x all unit-bit vectors, all-ones, seeded; DK/DR/KDF with constants of every length 1..16; DES3 random-to-key: all 256 values at each byte position + pre-images of all 16 weak keys in each third; GetKeyFromPassword: every ordered sequence of every subset of the three PA-data hints (x etype named by each hint); default salt: 10 realms (case, non-ASCII, empty, blanks) x 10 names x etypes x {no hints, hints without salt}; generated keys for each etype. distinct = (sub-space, etype, cell) combinations that agreed with the reference"
 }
 
 func s2kGrid(c *engine.Ctx) {
@@ -415,6 +416,14 @@ func etypeInfo(et int32, salt *string) []byte {
 	return der.Seq(der.Seq(items...))
 }
 
+// flipEtype returns the other of the two candidates {et, otherEtype(et)}.
+func flipEtype(et, cur int32) int32 {
+	if cur == et {
+		return otherEtype(et)
+	}
+	return et
+}
+
 func paDataPrecedence(c *engine.Ctx) {
 	cname := types.PrincipalName{NameType: nametype.KRB_NT_PRINCIPAL, NameString: []string{"user", "admin"}}
 	realm := "EXAMPLE.COM"
@@ -440,92 +449,98 @@ func paDataPrecedence(c *engine.Ctx) {
 				continue
 			}
 			for _, hintEt := range []int32{et, otherEtype(et)} {
-				for _, seq0 := range seqs {
-					// unrelated PA-data elements (types below, between and above the hint types) at every position must not matter
-					for _, unrelated := range unrelatedVariants(len(seq0)) {
-						seq := seq0
-						if aes && !withParams && len(unrelated) > 0 {
-							continue // default iteration counts are expensive; the interleavings run with explicit parameters and on des3/rc4
-						}
-						var pas types.PADataSequence
-						emit := func(pos int) {
-							for _, t := range unrelated[pos] {
-								pas = append(pas, types.PAData{PADataType: t, PADataValue: []byte{0x30, 0x00}})
+				// the etype named by ETYPE-INFO, independently of the one named by ETYPE-INFO2 (hintEt)
+				for _, hintEtInfo := range []int32{hintEt, flipEtype(et, hintEt)} {
+					for _, seq0 := range seqs {
+						// unrelated PA-data elements (types below, between and above the hint types) at every position must not matter
+						for _, unrelated := range unrelatedVariants(len(seq0)) {
+							seq := seq0
+							if aes && !withParams && len(unrelated) > 0 {
+								continue // default iteration counts are expensive; the interleavings run with explicit parameters and on des3/rc4
 							}
-						}
-						for pos, k := range seq {
-							emit(pos)
-							switch k {
-							case paPWSalt:
-								pas = append(pas, types.PAData{PADataType: paPWSalt, PADataValue: []byte(sPW)})
-							case paInfo:
-								pas = append(pas, types.PAData{PADataType: paInfo, PADataValue: etypeInfo(hintEt, &sI)})
-							case paInfo2:
-								var pr []byte
+							if hintEtInfo != hintEt && (len(unrelated) > 0 || aes && !withParams) {
+								continue // the two hints naming different etypes: without unrelated elements, cheap parameters only
+							}
+							var pas types.PADataSequence
+							emit := func(pos int) {
+								for _, t := range unrelated[pos] {
+									pas = append(pas, types.PAData{PADataType: t, PADataValue: []byte{0x30, 0x00}})
+								}
+							}
+							for pos, k := range seq {
+								emit(pos)
+								switch k {
+								case paPWSalt:
+									pas = append(pas, types.PAData{PADataType: paPWSalt, PADataValue: []byte(sPW)})
+								case paInfo:
+									pas = append(pas, types.PAData{PADataType: paInfo, PADataValue: etypeInfo(hintEtInfo, &sI)})
+								case paInfo2:
+									var pr []byte
+									if withParams {
+										pr = be32(7)
+									}
+									pas = append(pas, types.PAData{PADataType: paInfo2, PADataValue: etypeInfo2(hintEt, &sI2, pr)})
+								}
+							}
+							emit(len(seq))
+							has := func(k int32) bool {
+								for _, x := range seq {
+									if x == k {
+										return true
+									}
+								}
+								return false
+							}
+							// RFC 4120 5.2.7.5: ETYPE-INFO2 > ETYPE-INFO > PW-SALT > default
+							wantSalt, wantEt := defSalt, et
+							var wantParams []byte
+							switch {
+							case has(paInfo2):
+								wantSalt, wantEt = sI2, hintEt
 								if withParams {
-									pr = be32(7)
+									wantParams = be32(7)
 								}
-								pas = append(pas, types.PAData{PADataType: paInfo2, PADataValue: etypeInfo2(hintEt, &sI2, pr)})
+							case has(paInfo):
+								wantSalt, wantEt = sI, hintEtInfo
+							case has(paPWSalt):
+								wantSalt = sPW
 							}
-						}
-						emit(len(seq))
-						has := func(k int32) bool {
-							for _, x := range seq {
-								if x == k {
-									return true
+							if _, ok := rcrypto.Get(wantEt); !ok {
+								continue
+							}
+							if wantEt == rcrypto.DES3 || wantEt == rcrypto.RC4 {
+								wantParams = nil
+							}
+							cs := map[string]interface{}{"etype": et, "hint_etype": hintEt, "etype_info_names_etype": hintEtInfo, "sequence": seq, "with_s2kparams": withParams, "unrelated_padata_at_positions": unrelated}
+							var key types.EncryptionKey
+							var err error
+							var gotEt int32
+							if pn := safely(func() {
+								k, e, er := crypto.GetKeyFromPassword("pa55word", cname, realm, et, pas)
+								key, err = k, er
+								if e != nil {
+									gotEt = e.GetETypeID()
 								}
+							}); pn != "" {
+								c.Violate("padata", fmt.Sprintf("padata:et%d:panic", et), map[string]interface{}{"panic": pn}, cs)
+								continue
 							}
-							return false
-						}
-						// RFC 4120 5.2.7.5: ETYPE-INFO2 > ETYPE-INFO > PW-SALT > default
-						wantSalt, wantEt := defSalt, et
-						var wantParams []byte
-						switch {
-						case has(paInfo2):
-							wantSalt, wantEt = sI2, hintEt
-							if withParams {
-								wantParams = be32(7)
+							c.Add("evaluations", 1)
+							want, rerr := rcrypto.StringToKey(wantEt, "pa55word", wantSalt, wantParams)
+							if rerr != nil {
+								engine.Fatal("reference: %v", rerr)
 							}
-						case has(paInfo):
-							wantSalt, wantEt = sI, hintEt
-						case has(paPWSalt):
-							wantSalt = sPW
-						}
-						if _, ok := rcrypto.Get(wantEt); !ok {
-							continue
-						}
-						if wantEt == rcrypto.DES3 || wantEt == rcrypto.RC4 {
-							wantParams = nil
-						}
-						cs := map[string]interface{}{"etype": et, "hint_etype": hintEt, "sequence": seq, "with_s2kparams": withParams, "unrelated_padata_at_positions": unrelated}
-						var key types.EncryptionKey
-						var err error
-						var gotEt int32
-						if pn := safely(func() {
-							k, e, er := crypto.GetKeyFromPassword("pa55word", cname, realm, et, pas)
-							key, err = k, er
-							if e != nil {
-								gotEt = e.GetETypeID()
+							if err != nil || !bytes.Equal(key.KeyValue, want) {
+								used := whichSalt(et, hintEt, key.KeyValue, []string{defSalt, sPW, sI, sI2}, withParams)
+								c.Violate("padata", fmt.Sprintf("padata:precedence:%s", seqName(seq)), map[string]interface{}{"err": fmt.Sprint(err), "want_salt": wantSalt, "gokrb5_used": used, "want_etype": wantEt, "got_etype": gotEt}, cs)
+								continue
 							}
-						}); pn != "" {
-							c.Violate("padata", fmt.Sprintf("padata:et%d:panic", et), map[string]interface{}{"panic": pn}, cs)
-							continue
+							if gotEt != wantEt {
+								c.Violate("padata", fmt.Sprintf("padata:etype:%s", seqName(seq)), map[string]interface{}{"want_etype": wantEt, "got_etype": gotEt}, cs)
+								continue
+							}
+							c.Distinct(fmt.Sprintf("padata/%d/%d/%d/%v/%s/%v", et, hintEt, hintEtInfo, withParams, seqName(seq), unrelated))
 						}
-						c.Add("evaluations", 1)
-						want, rerr := rcrypto.StringToKey(wantEt, "pa55word", wantSalt, wantParams)
-						if rerr != nil {
-							engine.Fatal("reference: %v", rerr)
-						}
-						if err != nil || !bytes.Equal(key.KeyValue, want) {
-							used := whichSalt(et, hintEt, key.KeyValue, []string{defSalt, sPW, sI, sI2}, withParams)
-							c.Violate("padata", fmt.Sprintf("padata:precedence:%s", seqName(seq)), map[string]interface{}{"err": fmt.Sprint(err), "want_salt": wantSalt, "gokrb5_used": used, "want_etype": wantEt, "got_etype": gotEt}, cs)
-							continue
-						}
-						if gotEt != wantEt {
-							c.Violate("padata", fmt.Sprintf("padata:etype:%s", seqName(seq)), map[string]interface{}{"want_etype": wantEt, "got_etype": gotEt}, cs)
-							continue
-						}
-						c.Distinct(fmt.Sprintf("padata/%d/%d/%v/%s/%v", et, hintEt, withParams, seqName(seq), unrelated))
 					}
 				}
 			}
@@ -533,6 +548,99 @@ func paDataPrecedence(c *engine.Ctx) {
 	}
 	c.Sample(map[string]interface{}{"padata_sequence": "[ETYPE-INFO2, PW-SALT]", "expect": "salt and s2kparams from ETYPE-INFO2 although PW-SALT comes later"})
 	c.Note("not judged: EncryptionKey.KeyType when the hint's etype differs from the requested etype (gokrb5 labels the key with the requested id)")
+}
+
+// defaultSalts: the default salt is the realm exactly as given followed by the name components exactly as given
+// (RFC 4120 section 4, RFC 3961 appendix / RFC 3962 section 4); realm and component names are case sensitive and
+// are not transformed. Judged on GetSalt and on every path that falls back to it: no hints, hints without a salt.
+func defaultSalts(c *engine.Ctx) {
+	realms := []string{"EXAMPLE.COM", "example.com", "Example.Com", "ATHENA.MIT.EDU", "athena.mit.edu", "ÉCOLE.Fr", "A", "", "r e a l m", "EXAMPLE.COM "}
+	names := [][]string{{"user"}, {"User"}, {"USER"}, {"HTTP", "www.Example.org"}, {"host", "a", "b"}, {"Jurišić"}, {""}, {}, {"a/b"}, {"x", ""}}
+	for _, realm := range realms {
+		for _, ns := range names {
+			cname := types.PrincipalName{NameType: nametype.KRB_NT_PRINCIPAL, NameString: ns}
+			want := realm + strings.Join(ns, "")
+			cs := map[string]interface{}{"realm": realm, "name": ns}
+			var got string
+			if pn := safely(func() { got = cname.GetSalt(realm) }); pn != "" {
+				c.Violate("defsalt", "defsalt:panic", map[string]interface{}{"panic": pn}, cs)
+				continue
+			}
+			c.Add("evaluations", 1)
+			if got != want {
+				c.Violate("defsalt", "defsalt:GetSalt:"+saltShape(realm, ns, got), map[string]interface{}{"got": got, "want": want}, cs)
+			}
+			for _, et := range rcrypto.Etypes {
+				aes := et != rcrypto.DES3 && et != rcrypto.RC4
+				type variant struct {
+					name   string
+					pas    types.PADataSequence
+					params []byte
+				}
+				vs := []variant{}
+				if aes {
+					// cheap iteration count through ETYPE-INFO2 without a salt
+					vs = append(vs, variant{"etype-info2-without-salt", types.PADataSequence{{PADataType: paInfo2, PADataValue: etypeInfo2(et, nil, be32(3))}}, be32(3)})
+					vs = append(vs, variant{"unrelated-then-etype-info2-without-salt", types.PADataSequence{{PADataType: 133, PADataValue: []byte{0x30, 0}}, {PADataType: paInfo2, PADataValue: etypeInfo2(et, nil, be32(3))}}, be32(3)})
+				} else {
+					vs = append(vs, variant{"no-hints", nil, nil})
+					vs = append(vs, variant{"etype-info-without-salt", types.PADataSequence{{PADataType: paInfo, PADataValue: etypeInfo(et, nil)}}, nil})
+					vs = append(vs, variant{"etype-info2-without-salt", types.PADataSequence{{PADataType: paInfo2, PADataValue: etypeInfo2(et, nil, nil)}}, nil})
+				}
+				for _, v := range vs {
+					cs := map[string]interface{}{"realm": realm, "name": ns, "etype": et, "hints": v.name}
+					var key types.EncryptionKey
+					var err error
+					if pn := safely(func() { key, _, err = crypto.GetKeyFromPassword("pa55word", cname, realm, et, v.pas) }); pn != "" {
+						c.Violate("defsalt", fmt.Sprintf("defsalt:et%d:panic", et), map[string]interface{}{"panic": pn}, cs)
+						continue
+					}
+					c.Add("evaluations", 1)
+					wk, rerr := rcrypto.StringToKey(et, "pa55word", want, v.params)
+					if rerr != nil {
+						engine.Fatal("reference: %v", rerr)
+					}
+					if err != nil || !bytes.Equal(key.KeyValue, wk) {
+						c.Violate("defsalt", fmt.Sprintf("defsalt:key:%s:%s", v.name, saltShape(realm, ns, "")), map[string]interface{}{"err": fmt.Sprint(err), "want_salt": want}, cs)
+						continue
+					}
+					c.Distinct(fmt.Sprintf("defsalt/%d/%s/%q/%q", et, v.name, realm, ns))
+				}
+			}
+		}
+	}
+	// the default iteration count together with the default salt, once per AES etype, on a realm that is not upper case
+	for _, et := range rcrypto.Etypes {
+		if et == rcrypto.DES3 || et == rcrypto.RC4 {
+			continue
+		}
+		cname := types.PrincipalName{NameType: nametype.KRB_NT_PRINCIPAL, NameString: []string{"raeburn"}}
+		key, _, err := crypto.GetKeyFromPassword("password", cname, "Athena.mit.edu", et, nil)
+		wk, _ := rcrypto.StringToKey(et, "password", "Athena.mit.eduraeburn", nil)
+		c.Add("evaluations", 1)
+		if err != nil || !bytes.Equal(key.KeyValue, wk) {
+			c.Violate("defsalt", "defsalt:key:no-hints:realm-not-upper-case", map[string]interface{}{"err": fmt.Sprint(err)}, map[string]interface{}{"etype": et, "realm": "Athena.mit.edu", "name": "raeburn"})
+		} else {
+			c.Distinct(fmt.Sprintf("defsalt/%d/no-hints-default-iterations", et))
+		}
+	}
+}
+
+// saltShape classifies a realm/name pair for violation keys (so that one defect gives few keys).
+func saltShape(realm string, ns []string, got string) string {
+	switch {
+	case realm != strings.ToUpper(realm):
+		return "realm-not-upper-case"
+	case strings.Join(ns, "") != strings.ToLower(strings.Join(ns, "")):
+		return "name-not-lower-case"
+	case realm == "":
+		return "empty-realm"
+	case len(ns) == 0 || strings.Join(ns, "") == "":
+		return "empty-name"
+	case len(ns) > 1:
+		return "several-components"
+	}
+	return "plain"
 }
 
 func otherEtype(et int32) int32 {
